@@ -33,8 +33,10 @@ Pref(r, s, i) ==
                       IN DedupSeq(FlatSeq([x \in 1..Len(pa) |-> Pref(r.b, s, pa[x])]))
     [] r.k = "alt" -> DedupSeq(Pref(r.a, s, i) \o Pref(r.b, s, i))
     [] r.k = "opt" -> DedupSeq(Pref(r.a, s, i) \o <<i>>)
-    [] r.k = "star" -> LET pa == SelectSeq(Pref(r.a, s, i), LAMBDA j : j > i)      \* an empty iteration adds nothing
-                       IN DedupSeq(FlatSeq([x \in 1..Len(pa) |-> Pref(r, s, pa[x])]) \o <<i>>)
+    (* iterations are tried in the priority order of the body's matches; an iteration that matches the empty string ends
+       the repetition there (a backtracking matcher does not loop on empty iterations), a non-empty one continues *)
+    [] r.k = "star" -> LET pa == Pref(r.a, s, i)
+                       IN DedupSeq(FlatSeq([x \in 1..Len(pa) |-> IF pa[x] > i THEN Pref(r, s, pa[x]) ELSE <<i>>]) \o <<i>>)
     [] r.k = "plus" -> LET pa == Pref(r.a, s, i)
                        IN DedupSeq(FlatSeq([x \in 1..Len(pa) |-> Pref([k |-> "star", a |-> r.a], s, pa[x])]))
 
@@ -69,4 +71,6 @@ ASSUME FindFrom(Alt(L(97), Cat(L(97), L(98))), <<97, 98>>, 1) = <<1, 2>>        
 ASSUME Count(Star(L(97)), <<98, 97, 97, 98>>) = 4                                \* "", "aa", "", "" (empty matches count)
 ASSUME ReplaceFirst(Cat(L(97), Star(L(98))), <<99, 97, 98, 98, 97>>, <<120>>) = <<99, 120, 97>>
 ASSUME Instr([k |-> "eol"], <<97, 98>>) = 3
+ASSUME FindFrom(Star(Alt([k |-> "bol"], L(98))), <<98, 97, 98>>, 1) = <<1, 1>>          \* (^|b)* on "bab": the empty iteration ends the star
+ASSUME FindFrom(Star(Alt(L(98), [k |-> "bol"])), <<98, 97, 98>>, 1) = <<1, 2>>          \* (b|^)* on "bab": matches "b"
 =============================================================================
